@@ -159,7 +159,16 @@ class Truth:
         for b, e, et, cl in zip(sw.bus.values, sw.element.values, sw.et.values, sw.closed.values):
             if et in self.open_sw and not cl:
                 self.open_sw[et].add((e, b))
-        self.n_open = sum(len(v) for v in self.open_sw.values())
+        # auxiliary buses of the internal model: one per open element switch and per in-service branch terminal at an
+        # out-of-service bus (upper bound, used for the degrees-of-freedom guard only)
+        self.n_aux = sum(len(v) for v in self.open_sw.values())
+        for tab, cols in (("line", ("from_bus", "to_bus")), ("trafo", ("hv_bus", "lv_bus")),
+                          ("trafo3w", ("hv_bus", "mv_bus", "lv_bus")), ("impedance", ("from_bus", "to_bus"))):
+            t = net[tab]
+            for c in cols:
+                for idx, b in zip(t.index, t[c].values):
+                    if t.at[idx, "in_service"] and not net.bus.at[b, "in_service"]:
+                        self.n_aux += 1
         # graph: vertices = nodes of energized buses (+ star points); edges (u, v, table, idx, side of u or None)
         self.edges = []          # (u, v, tab, idx, sides usable for a flow measurement)
         self.t3_side_out = set()
@@ -475,19 +484,33 @@ def check(case):
     slots = {r["slot"] for r in rows if not r.get("dead")}
     redundant = len(slots - info["core_slots"])
     has_branch_rows = any(r["side"] is not None for r in rows)
-    t3_out_measured = any(r["et"] == "trafo3w" and r["el"] in T.t3_side_out for r in rows)
-    feats = []
-    if sab and has_branch_rows:
-        feats.append("side-as-bus")
-    if t3_out_measured:
-        feats.append("t3-terminal-oos")
     has_i = any(r["mt"] == "i" for r in rows)
-    if opt["algorithm"] == "wls_with_zero_constraint" and sn != 1.0:
-        feats.append("zero-constraint-sn!=1")
-    if opt["algorithm"] == "irwls" and opt["init"] == "flat" and has_i:
-        feats.append("irwls-flat-i")
-    fsig = "+".join(feats) or "plain"
-    res.label("core:" + info["core"], "alg:" + opt["algorithm"], "init:" + opt["init"], "zi:" + opt["zero_injection"])
+    t3_out_measured = any(r["et"] == "trafo3w" and r["el"] in T.t3_side_out for r in rows)
+    alg, init = opt["algorithm"], opt["init"]
+    # root-cause class of a failure: the first applicable fact about the input (specific shapes first)
+    if sab and has_branch_rows:
+        fsig = "side-as-bus"
+    elif t3_out_measured:
+        fsig = "t3-terminal-oos"
+    elif alg == "wls_with_zero_constraint" and sn != 1.0:
+        fsig = "zero-constraint-sn!=1"
+    elif alg == "irwls" and init == "flat" and has_i:
+        fsig = "irwls-flat+i-meas"
+    elif alg == "irwls" and T.n_aux > 0:
+        fsig = "irwls+open-end-aux-bus"
+    elif init == "flat" and has_i:
+        fsig = "flat+i-meas"
+    else:
+        fsig = "plain"
+    vmdev = max(abs(float(net.res_bus.vm_pu.at[b]) - 1.0) for b in T.buses)
+    loading = 0.0
+    for t in ("line", "trafo", "trafo3w"):
+        if len(net[t]):
+            for x in net["res_" + t].loading_percent.values:
+                if x == x:
+                    loading = max(loading, float(x))
+    stressed = vmdev > 0.1 or loading > 100.0
+    res.label("core:" + info["core"], "alg:" + alg, "init:" + init, "zi:" + opt["zero_injection"])
     if info["sparse_nodes"]:
         res.label("inj-core-sparse")
     live_tr = any(e[2] == "trafo" for e in T.edges)
@@ -496,15 +519,15 @@ def check(case):
                       (any(e[2] == "impedance" for e in T.edges), "impedance"),
                       (any(e[2] == "switch" for e in T.edges), "z-switch"),
                       (len(set(T.node[b] for b in T.buses)) < len(T.buses), "fused-node"),
-                      (T.n_open > 0, "open-element-switch"), (len(T.components) > 1, "islands>1"),
-                      (len(T.buses) < len(net.bus), "dead-bus"),
-                      (any(r["mt"] == "i" for r in rows), "i-meas"),
+                      (T.n_aux > 0, "open-end-aux-bus"), (len(T.components) > 1, "islands>1"),
+                      (len(T.buses) < len(net.bus), "dead-bus"), (has_i, "i-meas"),
+                      (any(r["mt"] in ("p", "q") and r["et"] != "bus" for r in rows), "flow-meas"),
                       (any(r.get("dead") for r in rows), "dead-branch-meas"),
                       (len(rows) > len({(r["slot"], r["sd"]) for r in rows}), "exact-duplicates"),
                       (bool(net.shunt.in_service.any()) if len(net.shunt) else False, "shunt"),
                       (bool(net.ward.in_service.any()) if len(net.ward) else False, "ward"),
                       (plan["full"], "full-set"), (sab and has_branch_rows, "side-as-bus"),
-                      (bool(T.t3_side_out), "t3-terminal-oos"),
+                      (bool(T.t3_side_out), "t3-terminal-oos"), (stressed, "stressed-state"),
                       (len(net.ext_grid) + int(net.gen.slack.sum() if len(net.gen) else 0) > 1, "multi-slack")):
         if cond:
             res.label(lab)
@@ -513,8 +536,7 @@ def check(case):
     zi = opt["zero_injection"]
     if zi == "list":      # documented alternative: iterable with the indices of the zero-injection buses
         zi = [int(b) for b in T.buses if T.node[b] not in T.has_inj]
-    kw = dict(algorithm=opt["algorithm"], init=opt["init"], tolerance=opt["tolerance"], maximum_iterations=MAX_IT,
-              zero_injection=zi)
+    kw = dict(algorithm=alg, init=init, tolerance=opt["tolerance"], maximum_iterations=MAX_IT, zero_injection=zi)
 
     def run_est(n):
         """-> ("ok", None) | ("skip", reason) | ("fail", (signature, detail))"""
@@ -533,7 +555,11 @@ def check(case):
                 return "fail", ("exc/no_inj_bus@estimation/ppc_conversion.py:_add_zero_injection", {"error": repr(e)[:300]})
             return "fail", ("exc/%s/%s" % (where, fsig), {"error": repr(e)[:300]})
         if not _success(r):
-            return "fail", ("not-successful/%s/%s/%s" % (opt["algorithm"], opt["init"], fsig), {"returned": repr(r)[:200]})
+            if init == "flat" and stressed:
+                # Gauss-Newton from a flat start is not expected to reach an extreme operating point (documented return value False)
+                return "skip", "flat-start-not-converged:stressed-state"
+            return "fail", ("not-successful/%s/%s/%s" % (alg, init, fsig), {"returned": repr(r)[:200], "loading": loading,
+                                                                              "vmdev": vmdev})
         return "ok", None
 
     ref_bus = net.res_bus[["vm_pu", "va_degree"]].copy()
@@ -547,7 +573,7 @@ def check(case):
         res.fail(what[0], opt=opt, n_meas=len(rows), **what[1])
         return res
     for kind, detail in compare_state(net, ref_bus, ref_tabs, sn, "truth"):
-        res.fail("truth/%s/%s/%s" % (kind, opt["algorithm"], fsig), opt=opt, n_meas=len(rows), **detail)
+        res.fail("truth/%s/%s/%s" % (kind, alg, fsig), opt=opt, n_meas=len(rows), **detail)
     res.nontrivial = redundant >= 1 and (live_tr or live_t3 or T.loop)
     if res.failures:
         return res
@@ -573,7 +599,9 @@ def check(case):
     res.label("meta:" + meta["mode"])
     st_, what = run_est(net2)
     if st_ == "fail":
-        res.fail("metamorphic/" + what[0], opt=opt, meta=meta, **what[1])
+        # a convergence failure of the variant has the root cause of a convergence failure, not of an order dependence
+        sig = what[0] if what[0].startswith("not-successful/") else "metamorphic/" + what[0]
+        res.fail(sig, opt=opt, meta=meta, variant=True, **what[1])
     elif st_ == "ok":
         for kind, detail in compare_state(net2, est_bus, est_tabs, sn, "meta"):
             res.fail("metamorphic/%s/%s/%s" % (kind, meta["mode"], fsig), opt=opt, meta=meta, **detail)
@@ -581,40 +609,56 @@ def check(case):
         return res
 
     # ---- bad data detection must stay silent ------------------------------------------------------------
-    nb_upper = len(T.buses) + len(T.stars) + T.n_open
+    nb_upper = len(T.buses) + len(T.stars) + T.n_aux
     dof_ok = len(slots) > 2 * nb_upper
     bad = case.get("bad_data")
     if bad and dof_ok and not (sab and has_branch_rows):
-        res.label("bad-data-tests")
-        aux = "aux" if (T.n_open or T.stars) else "noaux"
-        if bad in ("chi2", "both"):
-            n3 = copy.deepcopy(base)
+
+        def fresh():
+            n = copy.deepcopy(base)
             with silence():
-                write_measurements(pp, n3, rows, sab)
+                write_measurements(pp, n, rows, sab)
+            return n
+
+        def chi2(tol):
+            with silence():
+                return chi2_analysis(fresh(), init=init, tolerance=tol, maximum_iterations=MAX_IT)
+
+        def rn_max(tol):
+            n = fresh()
+            m0 = len(n.measurement)
             try:
                 with silence():
-                    flagged = chi2_analysis(n3, init=opt["init"], tolerance=opt["tolerance"], maximum_iterations=MAX_IT)
+                    ok = remove_bad_data(n, init=init, tolerance=tol, maximum_iterations=MAX_IT)
+            except Exception as e:
+                return "exc/" + exc_sig(e), repr(e)[:300]
+            if len(n.measurement) != m0:
+                return "removed-exact-measurement", {"removed": m0 - len(n.measurement), "returned": repr(ok)}
+            if ok is not True:
+                return "returned-%r" % (ok,), None
+            return None, None
+
+        if bad in ("chi2", "both"):
+            res.label("chi2-test")
+            try:
+                flagged = chi2(opt["tolerance"])
                 if flagged is not False:
-                    res.fail("chi2/flagged/%s" % fsig, returned=repr(flagged), opt=opt, n_meas=len(rows))
+                    # classification by a fact about the observation: does the flag vanish when the iteration is converged tightly?
+                    try:
+                        again = chi2(1e-11)
+                    except Exception:
+                        again = "exc"
+                    cls = "only-at-tolerance>=%g" % opt["tolerance"] if again is False else fsig
+                    res.fail("chi2/flagged/%s" % cls, returned=repr(flagged), at_tol_1e_11=repr(again), opt=opt, n_meas=len(rows))
             except Exception as e:
                 res.fail("chi2/exc/%s/%s" % (exc_sig(e), fsig), error=repr(e)[:300], opt=opt)
         # largest-normalised-residual test: undefined for critical measurements (residual covariance 0), therefore only
         # with the full measurement set, where every measurement is redundant
-        if bad in ("rn_max", "both") and plan["full"]:
-            n4 = copy.deepcopy(base)
-            with silence():
-                write_measurements(pp, n4, rows, sab)
-            m0 = len(n4.measurement)
-            tolc = "tol%g" % opt["tolerance"]
-            try:
-                with silence():
-                    ok = remove_bad_data(n4, init=opt["init"], tolerance=opt["tolerance"], maximum_iterations=MAX_IT)
-                if len(n4.measurement) != m0:
-                    res.fail("rn_max/removed-exact-measurement/%s/%s" % (tolc, fsig), removed=m0 - len(n4.measurement),
-                             returned=repr(ok), opt=opt)
-                elif ok is not True:
-                    res.fail("rn_max/returned-%r/%s/%s" % (ok, tolc, fsig), opt=opt)
-            except Exception as e:
-                res.fail("rn_max/exc/%s/%s/%s/%s" % (exc_sig(e), aux, tolc, fsig), error=repr(e)[:300], opt=opt,
-                         removed=m0 - len(n4.measurement))
+        if plan["full"]:
+            res.label("rn_max-test")
+            what, detail = rn_max(opt["tolerance"])
+            if what:
+                again, _ = rn_max(1e-11)
+                cls = "only-at-tolerance>=%g" % opt["tolerance"] if again is None else fsig
+                res.fail("rn_max/%s/%s" % (what, cls), detail=detail, at_tol_1e_11=again, opt=opt, n_meas=len(rows))
     return res
